@@ -73,20 +73,36 @@ func c04R1(e *Engine) {
 			if f == nil || f.Name() != "LastEvaluatedKey" {
 				return
 			}
-			if c, isC := strip(st.Val).(*ssa.Call); isC && len(c.Call.Args) == 1 && len(last) > 0 && c.Call.Args[0] == ssa.Value(last[0]) {
+			for _, rv := range e.recordValues(st.Val) {
+				c, isC := strip(rv).(*ssa.Call)
+				if !isC || len(c.Call.Args) != 1 || len(last) == 0 || c.Call.Args[0] != ssa.Value(last[0]) {
+					continue
+				}
 				if conv, _ := isConversion(e, c.Call.StaticCallee()); conv {
 					ok = true
 					// … unconditionally: whatever the search hands back is handed on; a page is complete only when the
 					// ENGINE says so (how many items came back says nothing: Limit bounds the items examined)
 					at := map[ssa.Value]bool{}
-					for _, cd := range condsAt(s.call.Block()) {
+					var top ssa.Instruction = s.call
+					if len(s.ctx) > 0 {
+						top = s.ctx[0].call.(ssa.Instruction) // the search runs in a helper: judged at the helper's call in the method
+					}
+					for _, cd := range condsAt(top.Block()) {
 						at[normCond(cd).V] = true
 					}
 					for _, cd := range condsAt(st.Block()) {
-						if !at[normCond(cd).V] {
-							ok = false
-							extra = normCond(cd).V.String()
+						cv := normCond(cd).V
+						if at[cv] {
+							continue
 						}
+						// the error test of the helper that ran the search
+						if tv, _, isNil := nilTest(cv); isNil && len(s.ctx) > 0 {
+							if ex, isEx := strip(tv).(*ssa.Extract); isEx && ex.Tuple == s.ctx[0].call.(ssa.Value) && isErrorType(ex.Type()) {
+								continue
+							}
+						}
+						ok = false
+						extra = cv.String()
 					}
 				}
 			}
